@@ -56,7 +56,7 @@ theorem call_pushes_scope (fuel : Nat) (ps : List Op) (body : Op) (vmi : Nat) (a
     callVal (fuel + 1) (.closure ps body vmi) args k w =
       { ctl := .ev body vmi, k := .popScopeK vmi :: k,
         w := ({ w with heap := w.heap.push (.dict kvs) }).setVM vmi { vm with scopes := w.heap.size :: vm.scopes } } := by
-  simp [callVal, hb, hv, Heap.alloc]
+  simp [callVal, callClosure, hb, hv, Heap.alloc]
 
 /-- … and that scope is popped when the call returns … -/
 theorem return_pops_scope (vmi : Nat) (v : Val) (k : List Frame) (w : World) (vm : VM)
